@@ -35,6 +35,9 @@ def run(ctx):
     r5(ctx)
     from .common import run_mandatory
     run_mandatory(ctx, 'C13')
+    if ctx.tier == 'thorough' and not getattr(ctx, 'sibling', None):
+        from .. import sweep
+        sweep.subtractions(ctx, 'C13.R4')
 
 
 STABLE_SORT = r'(ParallelSliceMut|slice::<impl \[T\]>|Vec<.*>|\[T\])::(par_sort_by_key|par_sort_by|par_sort|sort_by_key|sort_by|sort|par_sort_by_cached_key|sort_by_cached_key)$'
